@@ -113,10 +113,10 @@ PairConflict(x, y) ==
 
 Conflicts(C) == \E x \in C : \E y \in C : PairConflict(x, y)
 
-Range(q) == {q[i] : i \in DOMAIN q}
+RangeOf(q) == {q[i] : i \in DOMAIN q}
 SimOp(s, t) == Op("sim", "-", 0, FALSE, s, t)
 \* the collection present at x's time point (se: accepted effects there, ss: simulated effect there)
-Current(se, ss, t) == Range(se) \cup (IF ss = 0 THEN {} ELSE {SimOp(ss, t)})
+Current(se, ss, t) == RangeOf(se) \cup (IF ss = 0 THEN {} ELSE {SimOp(ss, t)})
 \* set_simulated_effect REPLACES the simulated effect: the new one is never compared with the old
 SpecRaise(x, se, ss) == \E y \in Current(se, ss, x.t) : PairConflict(x, y)
 
@@ -190,15 +190,17 @@ Call(x) ==
 
 \* one named action per outcome of the check (failure paths are separate actions, so that
 \* TLC's per-action coverage shows that every branch of ImplCheck is exercised)
-Accept(x)             == Call(x) /\ last'.why = "none"
-RejectSimEffects(x)   == Call(x) /\ last'.why = "sim-effects"
-RejectAssignIncDec(x) == Call(x) /\ last'.why = "assign-incdec"
-RejectAssignSim(x)    == Call(x) /\ last'.why = "assign-sim"
-RejectAssignAssign(x) == Call(x) /\ last'.why = "assign-assign"
-RejectIncDecAssign(x) == Call(x) /\ last'.why = "incdec-assign"
-RejectIncDecSim(x)    == Call(x) /\ last'.why = "incdec-sim"
+WhyOf(x) == ImplCheck(x, assigned[x.t], incdec[x.t], sim[x.t]).why
+Accept(x)             == WhyOf(x) = "none" /\ Call(x)
+RejectSimEffects(x)   == WhyOf(x) = "sim-effects" /\ Call(x)
+RejectAssignIncDec(x) == WhyOf(x) = "assign-incdec" /\ Call(x)
+RejectAssignSim(x)    == WhyOf(x) = "assign-sim" /\ Call(x)
+RejectAssignAssign(x) == WhyOf(x) = "assign-assign" /\ Call(x)
+RejectIncDecAssign(x) == WhyOf(x) = "incdec-assign" /\ Call(x)
+RejectIncDecSim(x)    == WhyOf(x) = "incdec-sim" /\ Call(x)
 
-Next == \E x \in UniverseSet :
+Next == /\ nops < MaxOps       \* (first: no outcome is computed for histories at the bound)
+        /\ \E x \in UniverseSet :
            \/ Accept(x) \/ RejectSimEffects(x) \/ RejectAssignIncDec(x) \/ RejectAssignSim(x)
            \/ RejectAssignAssign(x) \/ RejectIncDecAssign(x) \/ RejectIncDecSim(x)
 Spec == Init /\ [][Next]_vars
